@@ -73,7 +73,7 @@ def _strategy(draw):
         return draw(_rings())
     if draw(st.integers(0, 39)) == 0:
         return draw(_large())
-    spec = draw(gc.system(max_res=8, max_total_mol=5))
+    spec = draw(gc.system(max_res=8, max_total_mol=5, variants=True))
     by_name = {mt["name"]: mt for mt in spec["moltypes"]}
     nres = sum(cnt * len(by_name[name]["residues"]) for name, cnt in spec["molecules"])
     dense = draw(st.integers(0, 3)) == 0
